@@ -113,4 +113,54 @@ theorem c11_silent_after (st : State) (hc : st.closed = true) (ev : Ev) :
 /-- non-vacuity: a client with one pending request-response loses its connection -/
 example : (step (step (init 1) (.requestResponse [1])).1 .lost).2 = [.futError 0 cConnectionError, .onClose] := by decide
 
+/-- **`close()` fails whatever is still registered, in any state - also after the connection was
+already lost** (`stopStreams` is `stop_all_streams` alone: the last step of `RSocketBase.close()`
+since the repair of defect F20, and the clean-up of the client's reconnect listener): the stream
+table is empty afterwards, every pending request-response awaitable gets the connection error,
+every open stream / channel subscriber `on_error`. No `closed = false` hypothesis: a request
+issued after the loss is registered in a closed state and is failed by the `close()` that follows. -/
+theorem c11_close_stops_what_is_registered (st : State) (h : WF st) :
+    (step st .stopStreams).1.table = [] ∧
+    (∀ sid oid s, (sid, oid) ∈ st.table → st.obj oid = some s → s.kind = .rrReq → s.fut = .pending →
+      Out.futError oid cConnectionError ∈ (step st .stopStreams).2) ∧
+    (∀ sid oid s, (sid, oid) ∈ st.table → st.obj oid = some s → s.subscribed = true →
+      (s.kind = .stReq ∨ (s.kind = .chReq ∧ s.recvComplete = false)) →
+      Out.onError oid cConnectionError ∈ (step st .stopStreams).2) := by
+  have ho := stopAll_outs st.table st h.oids_nodup
+  have ht := stopAll_table st.table st
+  have hmem : ∀ x : Out, (∀ f, x ≠ .send f) → x ∈ st.table.flatMap (fun p => stopOuts (st.obj p.2) p.2) →
+      x ∈ (step st .stopStreams).2 := by
+    intro x hx hin
+    simp only [step, stopStreamsStep, State.emit, ho]
+    split
+    · simp only [List.mem_filter]
+      refine ⟨hin, ?_⟩
+      cases x <;> simp_all
+    · exact hin
+  refine ⟨?_, ?_, ?_⟩
+  · simp only [step, stopStreamsStep]
+    rw [ht]
+    apply List.filter_eq_nil_iff.mpr
+    intro p hp
+    have : (st.table.map (·.1)).contains p.1 = true := by
+      rw [List.contains_iff_mem]
+      exact List.mem_map_of_mem hp
+    rw [this]; simp
+  · intro sid oid s hreg hobj hk hp
+    apply hmem _ (by intro f; simp)
+    simp only [List.mem_flatMap]
+    exact ⟨(sid, oid), hreg, by simp [stopOuts, hobj, hk, hp]⟩
+  · intro sid oid s hreg hobj hsub hk
+    apply hmem _ (by intro f; simp)
+    simp only [List.mem_flatMap]
+    refine ⟨(sid, oid), hreg, ?_⟩
+    rcases hk with hk | ⟨hk, hr⟩
+    · simp [stopOuts, hobj, hk, hsub]
+    · simp [stopOuts, hobj, hk, hsub, hr]
+
+/-- the history behind defect F20, on the model: the connection is lost, the application asks once
+more, `close()` fails that request -/
+example : (run (init 2) [.lost, .requestResponse [1], .stopStreams]).2 =
+    [[.onClose], [.created 0 2], [.futError 0 cConnectionError]] := by decide +kernel
+
 end RSocketModel.Engine
